@@ -254,8 +254,8 @@ func checkC01(c *Ctx) {
 	}
 	c.rulePadFresh("J6.padzero")
 	// parsing keeps nothing in package-level memory between calls
-	c.rulePureAs("E.state", []string{"authenticode.Parse"})
-	c.R.Floor("E.state", 1)
+	c.rulePureAs("E.state", []string{"authenticode.Parse", "authenticode.(*PECOFFBinary).Hash"})
+	c.R.Floor("E.state", 2)
 	c.ruleRecycle("P.recycle", func(f *ssa.Function) bool {
 		return strings.Contains(name(f), "authenticode.") || strings.Contains(name(f), "pkcs7.")
 	})
